@@ -29,6 +29,9 @@ class error_997_visitor(error_visitor.error_visitor):
     """
     Visit an error_handler composite.  Generate a 997.
     """
+    # groups of 997/999s in the source are passed over
+    skip_fa_groups = True
+
     def __init__(self, fd, term=('~', '*', '~', '\n')):
         """
         @param fd: target file
